@@ -352,6 +352,22 @@ func (x *Exec) verifyFunc(fn *ssa.Function, c *FuncContract) {
 			}
 		}
 	}
+	// a `let` named like a parameter would be ambiguous in every clause: refuse it (a `let` named like a local is
+	// allowed and shadows the local, see lookupVar)
+	if c != nil && len(c.Lets) > 0 {
+		names := map[string]bool{}
+		for _, p := range fn.Params {
+			names[p.Name()] = true
+		}
+		for _, p := range fn.FreeVars {
+			names[p.Name()] = true
+		}
+		for _, l := range c.Lets {
+			if names[l.Label] {
+				panic(engineErr("let %s has the name of a parameter of the function: rename it (%s)", l.Label, l.Src))
+			}
+		}
+	}
 	st := newState()
 	fr := &Frame{fn: fn, regs: map[ssa.Value]Value{}, env: map[string]envEntry{}, loopSeen: map[*ssa.BasicBlock]bool{}}
 	params := map[string]Value{}
